@@ -1,12 +1,13 @@
 (* C13  Plane sections and splits of a mesh lie on the plane and on the surface. *)
 From Coq Require Import ZArith List Lia Permutation.
 From EG Require Import Num.Num Num.RNum Lib.Vec Model.Types Model.TolMap Model.Curve Model.MeshTopo Model.Section.
-From EG Require Import Proofs.MeshChains Proofs.Section.
+From Coq Require Import Reals.
+From EG Require Import Model.Frames Proofs.MeshChains Proofs.Section Proofs.SectionGeom.
 Import ListNotations.
 
 (* engeom's assembly of parry's polyline never fails or hangs: chaining terminates on every list of index pairs and uses
    each pair exactly once (C12) *)
-Theorem C13_assembly_total : forall (verts : list (@V3 RNum)) (pairs : list edge) (tol : @num RNum),
+Theorem C13_assembly_total : forall (verts : list (@V3 RNum)) (pairs : list edge) (tol : @EG.Num.Num.num RNum),
   exists cs, @assemble RNum verts pairs tol = Some cs.
 Proof. exact assemble_total. Qed.
 Print Assumptions C13_assembly_total.
@@ -18,9 +19,26 @@ Print Assumptions C13_each_segment_once.
 
 (* every vertex of every returned curve is one of the polyline's vertices, at an index that ends one of its segments:
    lying on the plane and on the surface is inherited from parry's polyline (certified per case) *)
-Theorem C13_vertices_from_polyline : forall (verts : list (@V3 RNum)) (pairs : list edge) (tol : @num RNum) cs,
+Theorem C13_vertices_from_polyline : forall (verts : list (@V3 RNum)) (pairs : list edge) (tol : @EG.Num.Num.num RNum) cs,
   @assemble RNum verts pairs tol = Some cs ->
   forall c, In c cs -> forall q, In q (cpts (@VO3 RNum) c) ->
   exists i, is_end pairs i /\ q = nth i verts (mk3 n0 n0 n0).
 Proof. exact assemble_vertices. Qed.
 Print Assumptions C13_vertices_from_polyline.
+
+(* what the per-case certificates check, as geometry: an edge whose ends lie strictly on opposite sides of the plane carries exactly
+   one point of the plane, strictly inside the edge, at the parameter da / (da - db) ... *)
+Theorem C13_crossing_point : forall (pl : @plane RNum) (a b : @V3 RNum) (da db : R),
+  da = plane_signed pl a -> db = plane_signed pl b -> (da * db < 0)%R ->
+  plane_signed pl (cross_point a b da db) = 0%R /\ (0 < cross_param da db < 1)%R /\
+  forall t, plane_signed pl (lerp3 a b t) = 0%R -> t = cross_param da db.
+Proof. exact crossing_point. Qed.
+Print Assumptions C13_crossing_point.
+
+(* ... and cutting a triangle along the segment between two such points conserves its area: the corner piece and the two
+   triangles of the remaining quadrilateral add up to the triangle (the split's "areas sum to the original area") *)
+Theorem C13_split_triangle_area : forall (a b c : @V3 RNum) (s t : R), (0 <= s <= 1)%R -> (0 <= t <= 1)%R ->
+  let x := lerp3 a b s in let y := lerp3 a c t in
+  (tri_area a x y + tri_area x b c + tri_area x c y = tri_area a b c)%R.
+Proof. exact split_triangle_area. Qed.
+Print Assumptions C13_split_triangle_area.
